@@ -20,21 +20,7 @@ def sh(cmd, **kw):
     return subprocess.run(cmd, shell=True, capture_output=True, text=True, **kw)
 
 
-def main():
-    prop, wt = sys.argv[1], sys.argv[2]
-    checks = [prop]
-    tier = 'quick'
-    name = prop
-    mode = 'repo'
-    for i, a in enumerate(sys.argv):
-        if a == '--checks':
-            checks = sys.argv[i + 1].split(',')
-        if a == '--tier':
-            tier = sys.argv[i + 1]
-        if a == '--name':
-            name = sys.argv[i + 1]
-        if a == '--mode':
-            mode = sys.argv[i + 1]
+def _confirm(prop, wt, dest):
     out = os.path.join(wt, 'OUT')
     res = dict(property=prop, worktree=wt)
     # the worktree is reset to exactly HEAD + OUT/patch.diff (sub-agents share one git stash across worktrees: do not trust what is left there)
@@ -42,7 +28,7 @@ def main():
     ap = sh('git -C %s apply %s' % (wt, os.path.join(out, 'patch.diff')))
     if ap.returncode != 0:
         print('patch.diff does not apply to a clean worktree:', ap.stderr)
-        return 3
+        return None
     # 1. confirm
     t = sh('cd %s && PYTHONPATH=%s/src /venv/bin/python -m pytest -q -p no:cacheprovider --timeout=900 tests 2>&1 | tail -1' % (wt, wt))
     res['tests_with_change'] = t.stdout.strip()[-200:]
@@ -53,15 +39,46 @@ def main():
     d0 = sh('cd %s && PYTHONPATH=/repo/src /venv/bin/python %s/OUT/demo.py' % (tempfile.gettempdir(), wt))
     res['demo_without_change_exit'] = d0.returncode
     res['confirmed'] = bool(ok_tests and d1.returncode != 0 and d0.returncode == 0)
-    dest = os.path.join(HOME, 'seeded', name)
     os.makedirs(dest, exist_ok=True)
     for f in ('patch.diff', 'demo.py', 'meta.json'):
         if os.path.exists(os.path.join(out, f)):
             shutil.copy(os.path.join(out, f), os.path.join(dest, f))
-    if not res['confirmed']:
-        json.dump(res, open(os.path.join(dest, 'result.json'), 'w'), indent=1)
-        print('NOT CONFIRMED', json.dumps(res, indent=1))
-        return 2
+    return res
+
+
+def main():
+    prop, wt = sys.argv[1], sys.argv[2]
+    checks = [prop]
+    tier = 'quick'
+    name = prop
+    mode = 'repo'
+    recheck = '--recheck' in sys.argv      # steps 1-2 were done before (seeded/<name>/ exists): only run the checks again
+    for i, a in enumerate(sys.argv):
+        if a == '--checks':
+            checks = sys.argv[i + 1].split(',')
+        if a == '--tier':
+            tier = sys.argv[i + 1]
+        if a == '--name':
+            name = sys.argv[i + 1]
+        if a == '--mode':
+            mode = sys.argv[i + 1]
+    dest = os.path.join(HOME, 'seeded', name)
+    if recheck:
+        res = json.load(open(os.path.join(dest, 'result.json')))
+        if not res.get('confirmed'):
+            print('not a confirmed change')
+            return 2
+        if mode == 'worktree':
+            print('--recheck works with --mode repo only (the worktree may be gone)')
+            return 3
+    else:
+        res = _confirm(prop, wt, dest)
+        if res is None:
+            return 3
+        if not res['confirmed']:
+            json.dump(res, open(os.path.join(dest, 'result.json'), 'w'), indent=1)
+            print('NOT CONFIRMED', json.dumps(res, indent=1))
+            return 2
     # 3. run the checks against the mutation: --mode repo applies the patch to /repo (and ALWAYS undoes it), --mode worktree points the
     #    machinery at the sub-agent's worktree (VERIF_REPO), which allows several mutations to be examined at once.  evidence/ and replays/ of
     #    these runs go to seeded/<name>/run (VERIF_OUT) so that /verif/evidence keeps describing the unchanged tree.
